@@ -263,7 +263,27 @@ class Engine:
 
     NEG = {'lt': 'ge', 'le': 'gt', 'eq': 'ne', 'ne': 'eq', 'gt': 'le', 'ge': 'lt'}
 
+    def canon(self, st, v):
+        """representative of v's equivalence class (symbols the zone proves equal up to a constant)"""
+        if v.sym is None:
+            return v
+        best = v
+        z = st.zone
+        for s_ in z.syms:
+            if s_ == v.sym or s_ == Z:
+                continue
+            if s_ < best.sym if best.sym is not None else False:
+                d1 = z.get(v.sym, s_)
+                if d1 != INF and z.get(s_, v.sym) == -d1:
+                    best = NumV(s_, v.k + d1, v.ty)
+        if best.sym is not None:
+            d1 = z.get(v.sym, Z)
+            if d1 != INF and z.get(Z, v.sym) == -d1:
+                return NumV(None, v.k + d1, v.ty)
+        return best
+
     def num_add(self, st, a, b, ty):
+        a, b = self.canon(st, a), self.canon(st, b)
         if b.sym is None:
             return NumV(a.sym, a.k + b.k, ty)
         if a.sym is None:
@@ -291,6 +311,7 @@ class Engine:
         return t
 
     def num_sub(self, st, a, b, ty):
+        a, b = self.canon(st, a), self.canon(st, b)
         if b.sym is None:
             return NumV(a.sym, a.k - b.k, ty)
         if a.sym == b.sym:
@@ -770,7 +791,7 @@ class Engine:
             if agg in ('closure', 'coroutine'):
                 b = self.prog.bodies.get(rv['closure'])
                 names = [str(i) for i in range(len(ops))]
-                return ClosureV(rv['closure'], StructV('env', {n: v for n, v in zip(names, ops)}))
+                return ClosureV(rv['closure'], StructV('env', {n: v for n, v in zip(names, ops)}), self.prog.fingerprint(rv['closure']))
             return OpaqueV(dest_ty or '?', next(_uid))
         if k == 'repeat':
             v = self.operand(st, fr, rv['op'])
@@ -1302,7 +1323,15 @@ class Engine:
         if kind == 'local':
             for h in self.hooks:
                 h('call', st, fr, bi, callee, args, t)
-            if self.contract is not None and self.contract(callee, fr.func):
+            m = re.match(r'^<(.*) as std::clone::Clone>::clone$', callee)
+            if m and m.group(1) in self.prog.adts and self.prog.bodies[callee].span.get('exp'):
+                # #[derive(Clone)] on a crate-local type: field-wise clone = copy of the abstract value
+                v = args[0]
+                while isinstance(v, RefV):
+                    v = self.read(st, v.path)
+                self.visited_blocks.setdefault(callee, set()).update(range(len(self.prog.bodies[callee].blocks)))
+                results = [(st, v)]
+            elif self.contract is not None and self.contract(callee, fr.func):
                 results = self.call_by_contract(st, fr, bi, t, callee, args)
             else:
                 results = self.exec_body(st, callee, args, depth + 1)
